@@ -44,7 +44,7 @@ ASSUMPTIONS = [
     'the installation-count history runs in a sub-process per case and is compared with the never-patched routines of the harness process',
 ]
 
-EPS = np.finfo(float).eps
+TOLU = 32 * np.finfo(float).eps    # tolerance unit: every oracle below is k * TOLU * scale; the pinned tree is silent at TOLU = 1 eps (all seeds, thorough), i.e. margin >= 32x
 PI = math.pi
 I2 = np.eye(2)
 
@@ -133,7 +133,7 @@ def valid(R, out, shape, sig, what, kind='fc'):
 
 
 def check_unitary(R, J, sig, what):
-    R.expect_close(herm(J) @ J, np.broadcast_to(I2, J.shape), 32 * EPS, sig, f'J^H J != I: {what}')
+    R.expect_close(herm(J) @ J, np.broadcast_to(I2, J.shape), 32 * TOLU, sig, f'J^H J != I: {what}')
 
 
 def check_mueller_of_unitary(R, J, sig, what):
@@ -141,8 +141,8 @@ def check_mueller_of_unitary(R, J, sig, what):
     M = valid(R, M, J.shape[:-2] + (4, 4), sig, f'jones_to_mueller({what})', kind='f')
     if M is None:
         return
-    R.expect_close(M @ np.swapaxes(M, -1, -2), np.broadcast_to(np.eye(4), M.shape), 64 * EPS, sig, f'M M^T != I for unitary {what}')
-    R.expect_close(M[..., 0, 0], np.ones(M.shape[:-2]), 32 * EPS, sig, f'M00 != 1 for unitary {what}')
+    R.expect_close(M @ np.swapaxes(M, -1, -2), np.broadcast_to(np.eye(4), M.shape), 64 * TOLU, sig, f'M M^T != I for unitary {what}')
+    R.expect_close(M[..., 0, 0], np.ones(M.shape[:-2]), 32 * TOLU, sig, f'M00 != 1 for unitary {what}')
 
 
 def tag_ret(d):
@@ -159,15 +159,15 @@ def run_element(case, seed, R):
     rot = valid(R, rot, (2, 2), 'jones_rotation_matrix:value', f'R({th})')
     derot = valid(R, derot, (2, 2), 'jones_rotation_matrix:value', f'R({-th})')
     if rot is not None:
-        R.expect_close(rot, Rref(th), 8 * EPS, 'jones_rotation_matrix:value', f'R({th}) vs [[c,s],[-s,c]]')
+        R.expect_close(rot, Rref(th), 8 * TOLU, 'jones_rotation_matrix:value', f'R({th}) vs [[c,s],[-s,c]]')
     if rot is not None and derot is not None:
-        R.expect_close(derot @ rot, I2, 16 * EPS, 'jones_rotation_matrix:inverse', f'R(-t) R(t) != I, t={th}')
+        R.expect_close(derot @ rot, I2, 16 * TOLU, 'jones_rotation_matrix:inverse', f'R(-t) R(t) != I, t={th}')
     if kind == 'rotation':
         th2 = case['theta2']
         a = valid(R, R.call(pol.jones_rotation_matrix, th2), (2, 2), 'jones_rotation_matrix:value', f'R({th2})')
         ab = valid(R, R.call(pol.jones_rotation_matrix, th + th2), (2, 2), 'jones_rotation_matrix:value', f'R({th + th2})')
         if rot is not None and a is not None and ab is not None:
-            R.expect_close(rot @ a, ab, 16 * EPS, 'jones_rotation_matrix:group', f'R(a) R(b) != R(a+b), a={th} b={th2}')
+            R.expect_close(rot @ a, ab, 16 * TOLU, 'jones_rotation_matrix:group', f'R(a) R(b) != R(a+b), a={th} b={th2}')
         if rot is not None:
             check_unitary(R, rot, 'jones_rotation_matrix:unitary', f'R({th})')
         R.nontrivial(th != 0 or th2 != 0)
@@ -189,17 +189,17 @@ def run_element(case, seed, R):
         Jp = valid(R, Jp, (2, 2), name + ':value', f'{name}(ret={d}, {th}) positional')
         if J is not None:
             check_unitary(R, J, name + ':unitary', f'ret={d} theta={th}')
-            R.expect_close(J, ret_ref(d, th), 16 * EPS, name + ':value', f'{name}(ret={d}, theta={th}) vs R(-t) diag(1,e^id) R(t)')
-            R.expect_close(np.linalg.det(J), np.exp(1j * d), 16 * EPS, name + ':value', f'det != exp(i ret), ret={d} theta={th}')
+            R.expect_close(J, ret_ref(d, th), 16 * TOLU, name + ':value', f'{name}(ret={d}, theta={th}) vs R(-t) diag(1,e^id) R(t)')
+            R.expect_close(np.linalg.det(J), np.exp(1j * d), 16 * TOLU, name + ':value', f'det != exp(i ret), ret={d} theta={th}')
             check_mueller_of_unitary(R, J, name + ':mueller', f'{name}(ret={d}, theta={th})')
             if Jp is not None:
                 R.expect_equal(Jp, J, name + ':value', 'positional theta != keyword theta')
         if J is not None and J0 is not None and rot is not None and derot is not None:
-            R.expect_close(J, derot @ J0 @ rot, 16 * EPS, name + ':rotation-law', f'E(t) != R(-t) E(0) R(t), ret={d} t={th}')
+            R.expect_close(J, derot @ J0 @ rot, 16 * TOLU, name + ':rotation-law', f'E(t) != R(-t) E(0) R(t), ret={d} t={th}')
         if kind != 'retarder' and J is not None:
             Jl = valid(R, R.call(pol.linear_retarder, d, theta=th), (2, 2), 'linear_retarder:value', 'linear_retarder')
             if Jl is not None:
-                R.expect_close(J, Jl, 4 * EPS, name + ':value', f'{name}(theta={th}) != linear_retarder({d}, theta)')
+                R.expect_close(J, Jl, 4 * TOLU, name + ':value', f'{name}(theta={th}) != linear_retarder({d}, theta)')
         R.nontrivial(d % (2 * PI) != 0 or th != 0)
         R.outcome(kind)
         return
@@ -213,11 +213,11 @@ def run_element(case, seed, R):
     J = valid(R, J, (2, 2), name + ':value', f'{name}(alpha={a}, theta={th})')
     J0 = valid(R, J0, (2, 2), name + ':value', f'{name}(alpha={a})')
     if J is not None:
-        R.expect_close(J, dia_ref(a, th), 16 * EPS, name + ':value', f'{name}(alpha={a}, theta={th}) vs R(-t) diag(1,a) R(t)')
+        R.expect_close(J, dia_ref(a, th), 16 * TOLU, name + ':value', f'{name}(alpha={a}, theta={th}) vs R(-t) diag(1,a) R(t)')
         if J0 is not None and rot is not None and derot is not None:
-            R.expect_close(J, derot @ J0 @ rot, 16 * EPS, name + ':rotation-law', f'E(t) != R(-t) E(0) R(t), alpha={a} t={th}')
+            R.expect_close(J, derot @ J0 @ rot, 16 * TOLU, name + ':rotation-law', f'E(t) != R(-t) E(0) R(t), alpha={a} t={th}')
         if a == 0:
-            R.expect_close(J @ J, J, 16 * EPS, name + ':idempotent', f'P^2 != P, theta={th}')
+            R.expect_close(J @ J, J, 16 * TOLU, name + ':idempotent', f'P^2 != P, theta={th}')
             M = valid(R, R.call(pol.jones_to_mueller, J), (4, 4), 'jones_to_mueller:value', 'M(polariser)', kind='f')
             for phi in case['phis']:
                 want = math.cos(th - phi) ** 2
@@ -226,18 +226,18 @@ def run_element(case, seed, R):
                     E = valid(R, E, (2,), 'linear_pol_vector:value', f'linear_pol_vector({phi})')
                     if E is None:
                         continue
-                    R.expect_close(E, [math.cos(phi), math.sin(phi)], 8 * EPS, 'linear_pol_vector:value', f'linear_pol_vector({phi}, degrees={deg})')
+                    R.expect_close(E, [math.cos(phi), math.sin(phi)], 8 * TOLU, 'linear_pol_vector:value', f'linear_pol_vector({phi}, degrees={deg})')
                     out = J @ E
-                    R.expect_close((np.abs(out) ** 2).sum(), want, 32 * EPS, name + ':malus', f'|P({th}) E({phi})|^2 != cos^2')
+                    R.expect_close((np.abs(out) ** 2).sum(), want, 32 * TOLU, name + ':malus', f'|P({th}) E({phi})|^2 != cos^2')
                 if M is not None:
                     S = np.array([1, math.cos(2 * phi), math.sin(2 * phi), 0])
-                    R.expect_close((M @ S)[0], want, 32 * EPS, name + ':malus:mueller', f'Mueller Malus theta={th} phi={phi}')
+                    R.expect_close((M @ S)[0], want, 32 * TOLU, name + ':malus:mueller', f'Mueller Malus theta={th} phi={phi}')
         if a == 1:
-            R.expect_close(J, I2, 16 * EPS, name + ':value', 'alpha=1 is not the identity')
+            R.expect_close(J, I2, 16 * TOLU, name + ':value', 'alpha=1 is not the identity')
     if kind == 'polarizer' and J is not None:
         Jl = valid(R, R.call(pol.linear_diattenuator, 0, theta=th), (2, 2), 'linear_diattenuator:value', 'linear_diattenuator(0)')
         if Jl is not None:
-            R.expect_close(J, Jl, 4 * EPS, name + ':value', 'linear_polarizer != linear_diattenuator(0)')
+            R.expect_close(J, Jl, 4 * TOLU, name + ':value', 'linear_polarizer != linear_diattenuator(0)')
     R.nontrivial(True)
     R.outcome(kind)
 
@@ -271,7 +271,7 @@ def run_vortex(case, seed, R):
         return
     want = np.array([vvr_ref(charge, t, d, rotv) for t in th.ravel()]).reshape(shape + (2, 2))
     check_unitary(R, J, base + ':unitary', f'charge={charge} ret={d} rotate={rotv} theta={th.ravel()[:4]}')
-    R.expect_close(J, want, 32 * EPS, base + ':value', f'vvr(charge={charge}, ret={d}, rotate={rotv}) vs Mawet eq. 7')
+    R.expect_close(J, want, 32 * TOLU, base + ':value', f'vvr(charge={charge}, ret={d}, rotate={rotv}) vs Mawet eq. 7')
     check_mueller_of_unitary(R, J, base + ':mueller', f'vvr(charge={charge}, ret={d}, rotate={rotv})')
     # batched == element-by-element (0-d theta arrays, fresh each)
     if len(shape):
@@ -284,7 +284,7 @@ def run_vortex(case, seed, R):
                 break
             elems.append(e)
         if elems is not None:
-            R.expect_close(J, np.array(elems).reshape(shape + (2, 2)), 8 * EPS, base + ':batch', f'batched vvr {shape} vs element-by-element')
+            R.expect_close(J, np.array(elems).reshape(shape + (2, 2)), 8 * TOLU, base + ':batch', f'batched vvr {shape} vs element-by-element')
     R.nontrivial(True)
     R.outcome(tag_ret(d))
 
@@ -327,16 +327,16 @@ def run_pair(case, seed, R):
         MAB = valid(R, R.call(pol.jones_to_mueller, AB.copy(), broadcast=bc, sig=sig + ':exception'), (4, 4), sig + ':value', f'M({na} {nb_})', kind='f')
         if MA is None or MB is None or MAB is None:
             continue
-        R.expect_close(MAB, MA @ MB, 64 * EPS * scale, sig + ':multiplicative', f'M(AB) != M(A)M(B), A={na} B={nb_}')
-        R.expect_close(MA, mueller_ref(A), 64 * EPS * scale, sig + ':value', f'M({na}) vs Stokes definition S(JE) = M S(E)')
+        R.expect_close(MAB, MA @ MB, 64 * TOLU * scale, sig + ':multiplicative', f'M(AB) != M(A)M(B), A={na} B={nb_}')
+        R.expect_close(MA, mueller_ref(A), 64 * TOLU * scale, sig + ':value', f'M({na}) vs Stokes definition S(JE) = M S(E)')
         if ua:
-            R.expect_close(MA @ MA.T, np.eye(4), 64 * EPS, sig + ':orthogonal', f'M M^T != I for unitary {na}')
-            R.expect_close(MA[0, 0], 1.0, 32 * EPS, sig + ':orthogonal', f'M00 != 1 for unitary {na}')
+            R.expect_close(MA @ MA.T, np.eye(4), 64 * TOLU, sig + ':orthogonal', f'M M^T != I for unitary {na}')
+            R.expect_close(MA[0, 0], 1.0, 32 * TOLU, sig + ':orthogonal', f'M00 != 1 for unitary {na}')
         if ua and ub:
-            R.expect_close(MAB @ MAB.T, np.eye(4), 64 * EPS, sig + ':orthogonal', f'M(AB) not orthogonal, A={na} B={nb_}')
+            R.expect_close(MAB @ MAB.T, np.eye(4), 64 * TOLU, sig + ':orthogonal', f'M(AB) not orthogonal, A={na} B={nb_}')
     k = valid(R, R.call(pol.broadcast_kron, A.copy(), B.copy()), (4, 4), 'broadcast_kron:value', 'broadcast_kron')
     if k is not None:
-        R.expect_close(k, np.kron(A, B), 8 * EPS * scale, 'broadcast_kron:value', f'broadcast_kron({na},{nb_}) vs np.kron')
+        R.expect_close(k, np.kron(A, B), 8 * TOLU * scale, 'broadcast_kron:value', f'broadcast_kron({na},{nb_}) vs np.kron')
     R.nontrivial(not (case['i'] == 0 and case['j'] == 0))
     R.outcome('unitary-pair' if ua and ub else ('unitary-left' if ua else 'general'))
 
@@ -361,13 +361,13 @@ def run_mueller_batch(case, seed, R):
             if m is None:
                 return
             el.append(m)
-        R.expect_close(M, np.array(el).reshape(shape + (4, 4)), 16 * EPS * scale, sig + ':elementwise', f'batched M {shape} vs one matrix at a time ({nm})')
-        R.expect_close(M, np.array([mueller_ref(x) for x in X.reshape(-1, 2, 2)]).reshape(shape + (4, 4)), 64 * EPS * scale, sig + ':value', 'batched M vs Stokes definition')
-    R.expect_close(Ms['AB'], Ms['A'] @ Ms['B'], 64 * EPS * scale, sig + ':multiplicative', f'batched M(AB) != M(A)M(B), shape {shape}')
+        R.expect_close(M, np.array(el).reshape(shape + (4, 4)), 16 * TOLU * scale, sig + ':elementwise', f'batched M {shape} vs one matrix at a time ({nm})')
+        R.expect_close(M, np.array([mueller_ref(x) for x in X.reshape(-1, 2, 2)]).reshape(shape + (4, 4)), 64 * TOLU * scale, sig + ':value', 'batched M vs Stokes definition')
+    R.expect_close(Ms['AB'], Ms['A'] @ Ms['B'], 64 * TOLU * scale, sig + ':multiplicative', f'batched M(AB) != M(A)M(B), shape {shape}')
     k = valid(R, R.call(pol.broadcast_kron, A.copy(), B.copy()), shape + (4, 4), 'broadcast_kron:batch', 'broadcast_kron of a batch')
     if k is not None:
         want = np.array([np.kron(a, b) for a, b in zip(A.reshape(-1, 2, 2), B.reshape(-1, 2, 2))]).reshape(shape + (4, 4))
-        R.expect_close(k, want, 8 * EPS * scale, 'broadcast_kron:batch', f'broadcast_kron {shape} vs np.kron per element')
+        R.expect_close(k, want, 8 * TOLU * scale, 'broadcast_kron:batch', f'broadcast_kron {shape} vs np.kron per element')
     R.nontrivial(True)
     R.outcome('batch')
 
@@ -411,10 +411,10 @@ def run_pauli(case, seed, R):
     if any(x is None for x in cs):
         return
     rec = sum(cs[k][..., None, None] * sigma[k] for k in range(4))
-    R.expect_close(rec, J, 8 * EPS * max(1.0, fro(J)), 'pauli:reconstruct', f'sum c_k sigma_k != J, shape {shape}')
+    R.expect_close(rec, J, 8 * TOLU * max(1.0, fro(J)), 'pauli:reconstruct', f'sum c_k sigma_k != J, shape {shape}')
     want = [np.trace(PAULI[k] @ J, axis1=-2, axis2=-1) / 2 for k in range(4)]
     for k in range(4):
-        R.expect_close(cs[k], want[k], 8 * EPS * max(1.0, fro(J)), 'pauli_coefficients:value', f'c_{k} != tr(sigma_{k} J)/2')
+        R.expect_close(cs[k], want[k], 8 * TOLU * max(1.0, fro(J)), 'pauli_coefficients:value', f'c_{k} != tr(sigma_{k} J)/2')
     R.nontrivial(True)
     R.outcome('pauli')
 
@@ -492,8 +492,8 @@ def run_ctor(case, seed, R):
         if e is None:
             return
         el.append(e)
-    R.expect_close(J, np.array(el).reshape(shape + (2, 2)), 8 * EPS, sig, f'{name} batched {shape} (arrays: {arrays}) vs element-by-element construction')
-    R.expect_close(J, np.array([ctor_ref(name, v) for v in per]).reshape(shape + (2, 2)), 32 * EPS, sig, f'{name} batched {shape} vs reference')
+    R.expect_close(J, np.array(el).reshape(shape + (2, 2)), 8 * TOLU, sig, f'{name} batched {shape} (arrays: {arrays}) vs element-by-element construction')
+    R.expect_close(J, np.array([ctor_ref(name, v) for v in per]).reshape(shape + (2, 2)), 32 * TOLU, sig, f'{name} batched {shape} vs reference')
     if name in ('linear_retarder', 'half_wave_plate', 'quarter_wave_plate', 'jones_rotation_matrix'):
         check_unitary(R, J, sig, f'{name} batched {shape}')
     R.nontrivial(bool(arrays))
@@ -518,18 +518,18 @@ def run_vectors(case, seed, R):
                 break
             el.append(e)
         if el is not None:
-            R.expect_close(E[..., 0], np.array(el).reshape(shape + (2,)), 4 * EPS, 'linear_pol_vector:array', f'array angle {shape} vs element-by-element')
-        R.expect_close(E[..., 0], np.stack([np.cos(phi), np.sin(phi)], axis=-1), 8 * EPS, 'linear_pol_vector:array', 'vs (cos, sin)')
+            R.expect_close(E[..., 0], np.array(el).reshape(shape + (2,)), 4 * TOLU, 'linear_pol_vector:array', f'array angle {shape} vs element-by-element')
+        R.expect_close(E[..., 0], np.stack([np.cos(phi), np.sin(phi)], axis=-1), 8 * TOLU, 'linear_pol_vector:array', 'vs (cos, sin)')
     for hand, sgn in (('left', 1), ('right', -1)):
         e = valid(R, R.call(pol.circular_pol_vector, hand), (2,), 'circular_pol_vector:value', f'circular_pol_vector({hand})')
         if e is not None:
-            R.expect_close(e, np.array([1, sgn * 1j]) / math.sqrt(2), 4 * EPS, 'circular_pol_vector:value', f'circular_pol_vector({hand})')
-            R.expect_close(stokes(e)[3], -sgn, 8 * EPS, 'circular_pol_vector:value', 'handedness vs S3 convention')
+            R.expect_close(e, np.array([1, sgn * 1j]) / math.sqrt(2), 4 * TOLU, 'circular_pol_vector:value', f'circular_pol_vector({hand})')
+            R.expect_close(stokes(e)[3], -sgn, 8 * TOLU, 'circular_pol_vector:value', 'handedness vs S3 convention')
         if off == 0:
             Eb = R.call(pol.circular_pol_vector, hand, shape=list(shape), sig='circular_pol_vector:shape')
             Eb = valid(R, Eb, shape + (2, 1), 'circular_pol_vector:shape', f'circular_pol_vector({hand}, shape={shape})')
             if Eb is not None and e is not None:
-                R.expect_close(Eb[..., 0], np.broadcast_to(e, shape + (2,)), 4 * EPS, 'circular_pol_vector:shape', f'circular_pol_vector({hand}, shape={shape}) vs the scalar vector')
+                R.expect_close(Eb[..., 0], np.broadcast_to(e, shape + (2,)), 4 * TOLU, 'circular_pol_vector:shape', f'circular_pol_vector({hand}, shape={shape}) vs the scalar vector')
     R.nontrivial(True)
     R.outcome('vectors')
 
@@ -569,6 +569,16 @@ def jones_fields(shape, seed):
     return out
 
 
+def plain_eval(f, x, args, kw, R=None):
+    """The never-patched routine on one 2-D field; None if it raises (then the relation has no right-hand side)."""
+    if R is not None:
+        R.tick()
+    try:
+        return np.asarray(f(x, *args, **kw))
+    except Exception:   # noqa
+        return None
+
+
 def run_adapter(case, seed, R):
     name, shape = case['routine'], tuple(case['shape'])
     plain = getattr(prop, name)
@@ -589,12 +599,15 @@ def run_adapter(case, seed, R):
                 for j in range(2):
                     reset_executors(64)
                     a, k = _mk(args, kw, shape, seed)
-                    c = R.call(plain, np.ascontiguousarray(J[..., i, j]), *a, sig=f'plain:{name}:exception', **k)
-                    if c is FAILED:
+                    c = plain_eval(plain, np.ascontiguousarray(J[..., i, j]), a, k, R)
+                    if c is None:
                         ok = False
                         continue
-                    comps[(i, j)] = np.asarray(c)
-            if not ok or got is FAILED:
+                    comps[(i, j)] = c
+            if not ok:
+                R.outcome('plain-routine-raises')     # right-hand side undefined: not this property's business
+                continue
+            if got is FAILED:
                 continue
             oshape = comps[(0, 0)].shape
             got = valid(R, got, oshape + (2, 2), sig + ':shape', f'adapter({name}) call {ci} on {fname} {shape}')
@@ -603,23 +616,25 @@ def run_adapter(case, seed, R):
             want = np.empty(oshape + (2, 2), dtype=complex)
             for (i, j), c in comps.items():
                 want[..., i, j] = c
-            tol = 64 * EPS * max(1.0, float(np.abs(want).max()))
+            tol = 64 * TOLU * max(1.0, float(np.abs(want).max()))
             R.expect_close(got, want, tol, sig + ':componentwise', f'adapter({name}) call {ci} on {fname} {shape} vs four plain propagations')
         # scalar (2-D) fields pass straight through
         E = dense(shape, seed, salt=301)
         a, k = _mk(args, kw, shape, seed)
         reset_executors(64)
-        w = plain(E.copy(), *a, **k)
-        R.tick()
+        w = plain_eval(plain, E.copy(), a, k, R)
+        if w is None:
+            R.outcome('plain-routine-raises')
+            continue
         reset_executors(64)
         a, k = _mk(args, kw, shape, seed)
         g = R.call(wrapped, E.copy(), *a, sig=sig + ':exception', **k)
-        R.expect_close(g, w, 8 * EPS * max(1.0, float(np.abs(w).max())), sig + ':passthrough', f'adapter({name}) on a 2-D field, call {ci}')
+        R.expect_close(g, w, 8 * TOLU * max(1.0, float(np.abs(w).max())), sig + ':passthrough', f'adapter({name}) on a 2-D field, call {ci}')
     # apply_polarization_optic
     E = dense(shape, seed, salt=302)
     J = dense(shape + (2, 2), seed, salt=303)
     out = R.call(pol.apply_polarization_optic, E.copy(), J.copy())
-    R.expect_close(out, J * E[..., None, None], 4 * EPS * float(np.abs(J).max() * np.abs(E).max()), 'apply_polarization_optic', f'field * optic, shape {shape}')
+    R.expect_close(out, J * E[..., None, None], 4 * TOLU * float(np.abs(J).max() * np.abs(E).max()), 'apply_polarization_optic', f'field * optic, shape {shape}')
     R.expect(getattr(wrapped, '__name__', None) == name, sig + ':wraps', 'functools.wraps lost the name')
     R.nontrivial(True)
     R.outcome(name)
@@ -683,8 +698,11 @@ def run_history(case, seed, R):
     d = tempfile.mkdtemp(prefix='c20-')
     sig0 = f'adapter-install:x{k}'
     try:
+        env = dict(os.environ)
+        here = [os.path.dirname(os.path.dirname(os.path.dirname(os.path.abspath(pol.__file__)))), os.path.dirname(os.path.dirname(os.path.abspath(__file__)))]
+        env['PYTHONPATH'] = os.pathsep.join(here + ([env['PYTHONPATH']] if env.get('PYTHONPATH') else []))
         p = subprocess.run([sys.executable, '-W', 'ignore', '-c', _SUB, str(k), json.dumps(funcs), str(int(seed)), d],
-                           env=dict(os.environ), capture_output=True, text=True, timeout=600)
+                           env=env, capture_output=True, text=True, timeout=600)
         R.tick()
         if p.returncode != 0 or not os.path.exists(os.path.join(d, 'meta.json')):
             R.violation(sig0 + ':subprocess', f'installing the adapter {k}x (funcs={funcs}) and propagating failed:\n{p.stderr[-1500:]}')
@@ -710,8 +728,11 @@ def run_history(case, seed, R):
                 sig = f'{sig0}:{name}'
                 a, kk = _mk(args, kw, shape, seed)
                 reset_executors(64)
-                w2 = plain(dense(shape, seed, salt=301), *a, **kk)
-                tol = 64 * EPS * max(1.0, float(np.abs(w2).max()))
+                w2 = plain_eval(plain, dense(shape, seed, salt=301), a, kk)
+                if w2 is None:
+                    R.outcome('plain-routine-raises')
+                    continue
+                tol = 64 * TOLU * max(1.0, float(np.abs(w2).max()))
                 if key2 in meta['errors']:
                     R.violation(sig + ':plain-broken', f'plain 2-D {name} raised after {k} installs: {meta["errors"][key2]}')
                 else:
@@ -723,11 +744,15 @@ def run_history(case, seed, R):
                         for j in range(2):
                             a, kk = _mk(args, kw, shape, seed)
                             reset_executors(64)
-                            want[..., i, j] = plain(np.ascontiguousarray(J[..., i, j]), *a, **kk)
+                            c = plain_eval(plain, np.ascontiguousarray(J[..., i, j]), a, kk)
+                            want[..., i, j] = np.nan if c is None else c
+                    if not np.all(np.isfinite(want)):
+                        R.outcome('plain-routine-raises')
+                        continue
                     if key4 in meta['errors']:
                         R.violation(sig + ':polarized', f'polarised {name} raised after {k} installs: {meta["errors"][key4]}')
                     else:
-                        R.expect_close(res.get(key4, FAILED), want, 64 * EPS * max(1.0, float(np.abs(want).max())), sig + ':polarized',
+                        R.expect_close(res.get(key4, FAILED), want, 64 * TOLU * max(1.0, float(np.abs(want).max())), sig + ':polarized',
                                        f'polarised {name} (call {ci}, {shape}) after {k} installs vs component-wise plain propagation')
                     R.nontrivial(True)
         E = dense(shape, seed, salt=301)
@@ -739,7 +764,7 @@ def run_history(case, seed, R):
             if key in meta['errors']:
                 R.violation(f'{sig0}:Wavefront.{mname}', f'Wavefront.{mname} raised after {k} installs: {meta["errors"][key]}')
             else:
-                R.expect_close(res.get(key, FAILED), want, 64 * EPS * max(1.0, float(np.abs(want).max())), f'{sig0}:Wavefront.{mname}',
+                R.expect_close(res.get(key, FAILED), want, 64 * TOLU * max(1.0, float(np.abs(want).max())), f'{sig0}:Wavefront.{mname}',
                                f'Wavefront.{mname} {shape} after {k} installs')
     R.outcome(f'installs={k}')
     R.nontrivial(k > 0)
@@ -776,7 +801,7 @@ def plan(tier, seed):
             vortex.append({'charge': ch, 'ret': PI, 'rotate': 0, 'shape': shp, 'off': 0, 'pool': A['ang'], 'defaults': True})
     npool = 8 if quick else 12
     pairs = [{'i': i, 'j': j, 'tier': tier} for i in range(npool) for j in range(npool)]
-    mshapes = [[1]] + A['shapes'] + ([[8]] if quick else [[12], [3, 4]])
+    mshapes = [[1]] + [s for s in A['shapes'] if s != [1]] + ([[8]] if quick else [[12], [3, 4]])
     mbatch = [{'shape': s, 'off': off, 'step': step, 'tier': tier} for s in mshapes for off in range(npool) for step in (1, 3)]
     pauli = [{'shape': s, 'off': off, 'tier': tier} for s in [[]] + mshapes for off in range(npool)]
     pools = {'theta': A['ang'], 'retardance': A['ret'], 'alpha': A['dia']}
